@@ -27,6 +27,9 @@ pub enum State {
     Idle,
     Busy,
     BusyStreaming,
+    /// gated handlers; the only outstanding send is an exactly-once publish whose future the
+    /// application dropped before PUBREC
+    GaveUp,
 }
 
 /// a template: bytes to write + how many payload bytes the frame still owes afterwards
@@ -58,6 +61,9 @@ pub fn alphabet(ver: Ver) -> Vec<Tpl> {
     }
     add("PUBACK#1", R::PubAck { pid: 1, code, props: None });
     add("PUBACK#2", R::PubAck { pid: 2, code, props: None });
+    add("PUBACK#3", R::PubAck { pid: 3, code, props: None });
+    add("PUBREC#3", R::PubRec { pid: 3, code, props: None });
+    add("PUBCOMP#3", R::PubComp { pid: 3, code, props: None });
     add("PUBREC#1", R::PubRec { pid: 1, code, props: None });
     add("PUBREC#2", R::PubRec { pid: 2, code, props: None });
     add("PUBREL#1", R::PubRel { pid: 1, code, props: None });
@@ -94,7 +100,7 @@ pub struct Outc {
     pub stop_seen: bool,
 }
 
-pub async fn run_seq(role: Role, state: State, seq: &[usize], alpha: &[Tpl]) -> Outc {
+pub async fn run_seq(role: Role, state: State, seq: &[usize], alpha: &[Tpl], reverse_release: bool) -> Outc {
     let app = App::new("c16");
     let mut cfg = ConnCfg::new(role);
     cfg.max_qos = 2;
@@ -105,7 +111,7 @@ pub async fn run_seq(role: Role, state: State, seq: &[usize], alpha: &[Tpl]) -> 
     if role == Role::V5Client {
         cfg.connack_props = vec![Prop::U16(0x21, 8)];
     }
-    let busy = matches!(state, State::Busy | State::BusyStreaming);
+    let busy = matches!(state, State::Busy | State::BusyStreaming | State::GaveUp);
     if busy {
         *app.pub_default.borrow_mut() = PubPlan { read: ReadMode::Eager, gated: true, outcome: Outcome::Ok };
         *app.proto_default.borrow_mut() = ProtoPlan { gated: true, answer: ProtoAnswer::Ack };
@@ -129,7 +135,16 @@ pub async fn run_seq(role: Role, state: State, seq: &[usize], alpha: &[Tpl]) -> 
     let stream_cmds = Chan::<StreamCmd>::new();
     if busy && c.has_sink() {
         let sink = c.sink();
+        {
+            // an exactly-once send the application gave up on (future dropped before PUBREC): id 1 (the oldest outstanding exchange)
+            let mut od = Op::new(&app, next_op_id(), "q2-dropped", sink.send_qos2(&PubSpec::new("o/3", b"out3".to_vec()), Chan::<ReceiptCmd>::new(), Rc::new(|_, _| {})));
+            od.start();
+            c.settle().await;
+            od.cancel();
+            drop(od);
+        }
         let id1 = next_op_id();
+        if state != State::GaveUp {
         let mut o1 = Op::new(&app, id1, "q1", sink.send_qos1(&PubSpec::new("o/1", b"out1".to_vec())));
         o1.start();
         ops.push(o1);
@@ -154,6 +169,7 @@ pub async fn run_seq(role: Role, state: State, seq: &[usize], alpha: &[Tpl]) -> 
             ow.start();
             ops.push(ow);
             stream_cmds.push(StreamCmd::Chunk(b"0123".to_vec()));
+        }
         }
         c.settle().await;
     }
@@ -185,12 +201,32 @@ pub async fn run_seq(role: Role, state: State, seq: &[usize], alpha: &[Tpl]) -> 
     }
     for _ in 0..32 {
         c.settle().await;
-        if app.open_all(Outcome::Ok) == 0 {
+        if reverse_release {
+            // newest handler first, one at a time
+            let gates = app.pending_gates();
+            match gates.last() {
+                Some(g) => {
+                    app.open_gate(*g, Outcome::Ok);
+                }
+                None => break,
+            }
+        } else if app.open_all(Outcome::Ok) == 0 {
             break;
         }
     }
     c.settle().await;
     out.stop_seen = !app.stops().is_empty();
+    // an endpoint that ends the connection because of what the peer sent must say so: the only
+    // other legitimate end here is the peer's own DISCONNECT
+    if let Some((_, class, detail)) = app.stops().first() {
+        let peer_disconnected = seq.iter().any(|k| alpha[*k].name.starts_with("DISCONNECT"));
+        if *class != crate::app::StopClass::Protocol && !peer_disconnected {
+            out.violation = Some((
+                format!("connection ended by a peer packet without a protocol error reported to the control service ({class:?})"),
+                format!("state {state:?}, sequence {:?}, detail {detail}", seq.iter().map(|k| alpha[*k].name).collect::<Vec<_>>()),
+            ));
+        }
+    }
     out.ended = c.done() || out.stop_seen;
     if !out.ended {
         // complete a frame that is still open, then probe
@@ -257,15 +293,15 @@ async fn start_client_without_connack(cfg: &ConnCfg, app: Rc<App>) -> conn::Conn
 }
 
 fn states_for(quick: bool) -> Vec<State> {
-    if quick { vec![State::NoHandshake, State::Idle, State::Busy] } else { vec![State::NoHandshake, State::Idle, State::Busy, State::BusyStreaming] }
+    if quick { vec![State::NoHandshake, State::Idle, State::Busy, State::GaveUp] } else { vec![State::NoHandshake, State::Idle, State::Busy, State::GaveUp, State::BusyStreaming] }
 }
 
 pub fn run(opts: &Opts) -> i32 {
     let rep = Report::new(
         opts,
         "exploration",
-        "exhaustive: every well-formed sequence of length <= 3 (thorough: plus a 1/4 sample of length 4) over ~28 templates per version, x {instead of handshake, idle, \
-         busy (+ busy with a streamed send in progress, thorough)} x 4 roles; plus seeded random sequences of length \
+        "exhaustive: every well-formed sequence of length <= 3 (thorough: plus a 1/4 sample of length 4) over ~31 templates per version, x {instead of handshake, idle, \
+         busy: outstanding sends of every kind incl. one the application gave up on, gated handlers released oldest-first and newest-first (+ busy with a streamed send in progress, thorough)} x 4 roles; plus seeded random sequences of length \
          4..8. distinct = distinct (role, state, sequence)",
     );
     if let Some(p) = &opts.replay {
@@ -307,20 +343,32 @@ pub fn run(opts: &Opts) -> i32 {
         let role = *rng.pick(&Role::ALL);
         let n = if role.is_v5() { a5.len() } else { a3.len() };
         let len = 4 + rng.usize(5);
-        let st = *rng.pick(&[State::NoHandshake, State::Idle, State::Busy, State::Busy, State::BusyStreaming]);
+        let st = *rng.pick(&[State::NoHandshake, State::Idle, State::Busy, State::Busy, State::GaveUp, State::BusyStreaming]);
         jobs.push((role, st, (0..len).map(|_| rng.usize(n)).collect()));
     }
     jobs.retain(|(role, _, seq)| well_formed(seq, if role.is_v5() { &a5 } else { &a3 }));
+    // busy states: the gated handlers are released oldest-first and newest-first
+    let jobs: Vec<(Role, State, Vec<usize>, bool)> = jobs
+        .into_iter()
+        .flat_map(|(r, st, seq)| {
+            let both = matches!(st, State::Busy | State::BusyStreaming | State::GaveUp) && seq.len() >= 2;
+            let mut v = vec![(r, st, seq.clone(), false)];
+            if both {
+                v.push((r, st, seq, true));
+            }
+            v
+        })
+        .collect();
     rep.extra("sequences", json!(jobs.len()));
     let deadline = std::time::Instant::now() + std::time::Duration::from_secs(if quick { 120 } else { 1500 });
     let done = pool::par_for(jobs.len() as u64, Some(deadline), |i| {
-        let (role, st, seq) = &jobs[i as usize];
+        let (role, st, seq, reverse) = &jobs[i as usize];
         let alpha = if role.is_v5() { &a5 } else { &a3 };
         let names: Vec<&str> = seq.iter().map(|k| alpha[*k].name).collect();
-        let r = exec(run_seq(*role, *st, seq, alpha));
+        let r = exec(run_seq(*role, *st, seq, alpha, *reverse));
         rep.eval();
-        rep.distinct(pool::mix(pool::hash_str(role.name()) ^ (*st as u64), pool::hash_bytes(&seq.iter().map(|x| *x as u8).collect::<Vec<_>>())));
-        let replay = json!({"role": role.name(), "state": format!("{st:?}"), "sequence": names, "indices": seq});
+        rep.distinct(pool::mix(pool::hash_str(role.name()) ^ (*st as u64) ^ ((*reverse as u64) << 17), pool::hash_bytes(&seq.iter().map(|x| *x as u8).collect::<Vec<_>>())));
+        let replay = json!({"role": role.name(), "state": format!("{st:?}"), "sequence": names, "indices": seq, "reverse_release": reverse});
         match &r {
             Run::Done(o, st2) => {
                 if o.ended {
@@ -404,12 +452,13 @@ fn replay(path: &std::path::Path) -> i32 {
         "NoHandshake" => State::NoHandshake,
         "Idle" => State::Idle,
         "Busy" => State::Busy,
+        "GaveUp" => State::GaveUp,
         _ => State::BusyStreaming,
     };
     let seq: Vec<usize> = c["indices"].as_array().map(|a| a.iter().filter_map(|x| x.as_u64().map(|x| x as usize)).collect()).unwrap_or_default();
     let alpha = alphabet(role.ver());
     println!("replaying {role:?} {st:?} {:?}", seq.iter().map(|k| alpha[*k].name).collect::<Vec<_>>());
-    match exec(run_seq(role, st, &seq, &alpha)) {
+    match exec(run_seq(role, st, &seq, &alpha, c["reverse_release"].as_bool().unwrap_or(false))) {
         Run::Done(o, _) => {
             for l in &o.log {
                 println!("{l}");
